@@ -375,6 +375,30 @@ func famControllerStale(deactivate, late bool, idx int) func(s *scenario) {
 	}
 }
 
+// famSharedKey: the controller's capabilityInvocation key is also a (non capabilityInvocation) verification method of the controlled DID,
+// so a transaction can carry a kid of D itself and name only D's latest version; the controllers are then found by signing time.
+func famSharedKey(deactivate bool) func(s *scenario) {
+	return func(s *scenario) {
+		c := s.mkDID("c", func(k *key) docSpec { return docSpec{id: k.did(), vms: []vmSpec{{k, relCapInv | relAssert}}} })
+		d := s.mkDID("d", func(k *key) docSpec { return s.randShape(k).with(c.k, relAssert|relAuthn) })
+		ctl := d.spec.clone()
+		ctl.controllers = []did.DID{c.id}
+		_, ok := s.apply(d, "update/own-key/set-controller", ctl, d.k, d, []dag.Transaction{d.latest()})
+		s.need(ok, "setting the controller")
+		kind := "update/controller-key-listed-in-did"
+		if deactivate {
+			kind = "update/deactivated-controller-key/listed-in-did"
+			_, ok := s.apply(c, "update/own-key/deactivation", docSpec{id: c.id}, c.k, c, []dag.Transaction{c.latest()})
+			s.need(ok, "deactivation of the controller")
+		}
+		steal := d.spec.clone()
+		steal.controllers = nil
+		steal = steal.with(c.k, relCapInv)
+		s.apply(d, kind, steal, c.k, d, s.withRoot([]dag.Transaction{d.latest()}))
+		s.apply(d, kind, s.nextService(d.spec), c.k, d, s.withRoot([]dag.Transaction{d.latest()}))
+	}
+}
+
 // famFormerController: D's controller changes from C1 to C2; C1's key tries again.
 func famFormerController(idx int) func(s *scenario) {
 	return func(s *scenario) {
@@ -818,6 +842,8 @@ func jobs(thorough bool, rnd *rand.Rand) []job {
 			}
 		}
 		add("former-controller", famFormerController(rnd.Intn(8)))
+		add("shared-key", famSharedKey(false))
+		add("shared-key", famSharedKey(true))
 		nr := len(rules) + len(rawPayloads)
 		a := rnd.Intn(nr - 6)
 		_ = a
@@ -864,6 +890,10 @@ func jobs(thorough bool, rnd *rand.Rand) []job {
 	}
 	for idx := 0; idx < 8; idx++ {
 		add("former-controller", famFormerController(idx))
+	}
+	for rep := 0; rep < 3; rep++ {
+		add("shared-key", famSharedKey(false))
+		add("shared-key", famSharedKey(true))
 	}
 	nr := len(rules) + len(rawPayloads)
 	for from := 0; from < nr; from += 5 {
